@@ -118,4 +118,22 @@ REG = {
     note="Entries are integers times scalings; matrices with general real entries are reached only through those scalings. Exactly "
          "singular matrices are not combined with non-dyadic scalings (rounding makes them regular). Non-square inputs are covered by C10.",
     technique="exact integer elimination in TLA+ (laws checked by TLC), export of matrices with exact determinant/adjugate, replay through the real Inverse/Determinant with trace-validated acceptance"),
+ "C06": dict(
+    engine="spec/Gamma.tla, Big.tla, MC_Gamma.tla (4 cfgs), Trace_Gamma.tla; harness/c06.cpp",
+    design_ref="DESIGN.md §4.6",
+    text="Gamma.tla holds the rational part of the family in arbitrary-precision integers (Big.tla): the Factorial memo table as a state "
+         "machine (TLC explores every call history of length 3 over ten boundary arguments: the value returned is n! whatever the table "
+         "held, entries never change), n! and Gamma(n+1/2)/sqrt(pi) for all n<=170, Pascal's triangle to row 400 (symmetry, agreement with "
+         "n!/(k!(n-k)!)), and the exact series of Q(x,a) at integer and half-integer a and half-integer x, run as a Horner state machine and "
+         "checked against its recursive definition, the recurrence in a and monotonicity in a. Every exported value is replayed through "
+         "Factorial (with the table length observed before and after each call), Gamma, GammaLn, Binomial_Coefficient, GammaQ/GammaP and the "
+         "incomplete gammas; random real arguments are recorded as relations (Gamma recurrence, agreement of GammaLn with lgammal, P,Q in "
+         "[0,1], P+Q=1, Q non-increasing on ascending x grids dense at x=a+1, recurrence Q(x,a+1)-Q(x,a)=x^a e^-x/Gamma(a+1) across the a=100 "
+         "switch, Upper+Lower=Gamma, round trips of Inv_GammaP/Inv_GammaQ); Trace_Gamma drives the memo machine with the recorded calls and "
+         "accepts residuals only in the unit the statement prescribes for the parameter (1e-12 / 1e-3 at a=100, 1e-7 / 1e-3 for inverses).",
+    note="The exact reference covers integer and half-integer a up to 400 (1000 thorough) on ~40 abscissae each; other real a are decided through "
+         "relations between the library's own values only. Binomial_Coefficient for n>170 (exp(GammaLn) path) is accepted within 64 eps ln(n!) "
+         "relative, 32 eps below; Factorial within 16 eps. Inverse round trips are skipped where the quantile underflows (a<0.06, p<P(1e-290,a)). "
+         "Trusted: TLC, libm long-double expl/erfcl/sqrtl/logl/lgammal.",
+    technique="arbitrary-precision TLA+ specification of the rational part of the Gamma family (TLC: memo-table state machine, Pascal, exact Q series as a Horner machine) + replay of exported exact values + trace validation of recorded relations"),
 }
